@@ -24,7 +24,9 @@ ASSUMPTIONS = [
     "For a deduced (non-requested) layout the fallback description may differ from the preprocessed text by the leading/trailing punctuation and connective words that every tract description is cleaned of; nothing else may be missing.",
 ]
 
-CHANNELS = ["init_kw", "config_bare", "config_long", "config_obj", "parse_commit", "parse_nocommit", "config_assign"]
+CHANNELS = ["init_kw", "config_bare", "config_long", "config_obj", "parse_commit", "parse_nocommit", "config_assign",
+            # the keyword against a config that names another layout; Config objects built without any text; a one-off other layout in between
+            "init_kw_over_config_layout", "parse_over_config_layout", "config_from_kwargs", "config_from_dict", "config_attribute", "init_kw_after_one_off_layout"]
 OTHER = configs.config_values(exclude=("wait_to_parse", "layout"))
 
 REQ_CASE = st.fixed_dictionaries({"text": soup.ANY_TEXT, "channel": st.sampled_from(CHANNELS), "cfg": OTHER})
@@ -54,6 +56,31 @@ def oracle_requested(c):
     elif ch == "config_assign":
         d = PLSSDesc(text, wait_to_parse=True)
         d.config = join(other, "copy_all")
+        d.parse()
+        tracts, layout = d.tracts, d.current_layout
+    elif ch == "init_kw_over_config_layout":
+        d = PLSSDesc(text, layout="copy_all", config=join(other, "TRS_desc"))
+        tracts, layout = d.tracts, d.current_layout
+    elif ch == "parse_over_config_layout":
+        d = PLSSDesc(text, config=join("layout.desc_STR", other), wait_to_parse=True)
+        d.parse(layout="copy_all")
+        tracts, layout = d.tracts, d.current_layout
+    elif ch == "config_from_kwargs":
+        cobj = Config(other)
+        d = PLSSDesc(text, config=Config.from_kwargs(**dict({k: getattr(cobj, k) for k in configs.ALL if getattr(cobj, k, None) is not None}, layout="copy_all")))
+        tracts, layout = d.tracts, d.current_layout
+    elif ch == "config_from_dict":
+        cobj = Config(other)
+        d = PLSSDesc(text, config=Config.from_dict(dict({k: getattr(cobj, k) for k in configs.ALL if getattr(cobj, k, None) is not None}, layout="copy_all")))
+        tracts, layout = d.tracts, d.current_layout
+    elif ch == "config_attribute":
+        cobj = Config(other)
+        cobj.layout = "copy_all"
+        d = PLSSDesc(text, config=cobj)
+        tracts, layout = d.tracts, d.current_layout
+    elif ch == "init_kw_after_one_off_layout":
+        d = PLSSDesc(text, layout="copy_all", config=other)
+        d.parse(layout="TRS_desc")
         d.parse()
         tracts, layout = d.tracts, d.current_layout
     elif ch == "parse_commit":
